@@ -10,16 +10,29 @@ Local Open Scope Z_scope.
 
 Record transport := { t_pos : Z; t_loop : option (Z * Z); t_playing : bool }.
 
-(** [Transport::new] *)
+(** [.filter(|(loop_start, loop_end)| loop_end > loop_start)]: an empty or inverted region is ignored *)
+Definition filter_region (lr : option (Z * Z)) : option (Z * Z) :=
+  match lr with
+  | Some (ls, le) => if le >? ls then Some (ls, le) else None
+  | None => None
+  end.
+
+(** [Transport::new]: reversed, the position is [num_frames - 1 - start_position] by two
+    [checked_sub]s; if either underflows there is nothing to play: [(0, false)] *)
 Definition transport_new (start_position : Z) (loop_region : option (Z * Z)) (reverse : bool)
-    (num_frames : Z) : outcome transport :=
-  let! p := (if reverse then (let! a := sub_chk num_frames 1 in sub_chk a start_position)
-             else Ok start_position) in
-  Ok {| t_pos := p; t_loop := loop_region; t_playing := true |}.
+    (num_frames : Z) : transport :=
+  let loop_region := filter_region loop_region in
+  let '(position, playing) :=
+    (if reverse then
+       if (1 <=? num_frames) && (start_position <=? num_frames - 1)
+       then (num_frames - 1 - start_position, true)
+       else (0, false)
+     else (start_position, true)) in
+  {| t_pos := position; t_loop := loop_region; t_playing := playing |}.
 
 (** [Transport::set_loop_region] *)
 Definition transport_set_loop_region (t : transport) (loop_region : option (Z * Z)) : transport :=
-  {| t_pos := t_pos t; t_loop := loop_region; t_playing := t_playing t |}.
+  {| t_pos := t_pos t; t_loop := filter_region loop_region; t_playing := t_playing t |}.
 
 (** [while position >= loop_end { position -= loop_end - loop_start }] *)
 Fixpoint wrap_down (fuel : nat) (p ls le : Z) : outcome Z :=
